@@ -78,6 +78,29 @@ def fed_query(rng, single=False):
     return text, ordered, g.features
 
 
+def api_select(rng):
+    """Selects from an integration of the API kind: filters, a total order with a row limit that really cuts, alone and joined."""
+    r = rng
+    w = r.choice(['', ' WHERE p.a > 0', ' WHERE p.a IS NOT NULL', ' WHERE p.id > 1'])
+    o = r.choice([' ORDER BY p.a DESC, p.id', ' ORDER BY p.id DESC', ' ORDER BY p.b, p.id', ' ORDER BY p.a, p.id DESC', ''])
+    lim = r.choice([' LIMIT 2', ' LIMIT 1', ' LIMIT 3 OFFSET 1', '']) if o else ''
+    if r.random() < 0.7:
+        return f'SELECT p.id AS id, p.a AS a, p.b AS b FROM api1.t1 AS p{w}{o}{lim}'
+    return f'SELECT p.id AS id, p.a AS a, q.id AS id_q FROM api1.t1 AS p JOIN int2.t2 AS q ON p.id = q.id{w}{o.replace(", p.id", ", p.id, q.id") if o else ""}{lim}'
+
+
+def sibling_ctes(rng):
+    """The same CTE name defined in two sibling nested queries (each name is local to its own query)."""
+    r = rng
+    n = r.choice(['c', 'cte1', 'Recent'])
+    f1, f2 = r.choice(['s.id > 1', 's.a IS NOT NULL', 's.id < 4']), r.choice(['s.id > 2', 's.a > 0', 's.id != 1'])
+    a = f'(WITH {n} AS (SELECT s.id AS id, s.a AS a FROM int1.t1 AS s WHERE {f1}) SELECT x.id AS id, x.a AS a FROM {n} AS x) AS p'
+    b = f'(WITH {n} AS (SELECT s.id AS id, s.a AS a FROM int2.t2 AS s WHERE {f2}) SELECT x.id AS id, x.a AS a FROM {n} AS x) AS q'
+    return r.choice([f'SELECT p.id AS id_p, p.a AS a_p, q.id AS id_q, q.a AS a_q FROM {a} JOIN {b} ON p.id = q.id',
+                     f'SELECT p.id AS id_p, p.a AS a_p FROM {a} WHERE p.id IN (SELECT q.id FROM {b})',
+                     f'SELECT p.id AS id, p.a AS a FROM {a} UNION ALL SELECT q.id AS id, q.a AS a FROM {b}'])
+
+
 def derived_join(rng):
     """A nested select (star or explicit columns; with a filter, a row limit after a total order, an offset) joined with a table of
     another integration, and filters of the outer query on the nested select's columns: they apply to its RESULT."""
